@@ -930,8 +930,12 @@ int tls13_record_get_handshake_certificate_verify(const uint8_t *record,
 		return -1;
 	}
 
-	tls_uint16_from_bytes(&alg, &p, &len);
-	tls_uint16array_from_bytes(sig, siglen, &p, &len);
+	if (tls_uint16_from_bytes(&alg, &p, &len) != 1
+		|| tls_uint16array_from_bytes(sig, siglen, &p, &len) != 1
+		|| tls_length_is_zero(len) != 1) {
+		error_print();
+		return -1;
+	}
 	*sign_algor = alg;
 
 	return 1;
